@@ -408,23 +408,23 @@ func c07SameSeq(a, b [][]kvql.Column) bool {
 // ---------------------------------------------------------------- cases
 
 type c07Replay struct {
-	Kind      string     `json:"kind"`
-	Query     string     `json:"query,omitempty"`
-	Unordered string     `json:"query_without_order_by,omitempty"`
-	Store     [][2]string `json:"store,omitempty"`
-	B         int        `json:"batch_size"`
-	Names     []string   `json:"field_names"`
-	Types     []string   `json:"field_types"`
-	Orders    []c07Ord   `json:"order_by"`
-	HasAggr   bool       `json:"has_aggregate,omitempty"`
+	Kind      string       `json:"kind"`
+	Query     string       `json:"query,omitempty"`
+	Unordered string       `json:"query_without_order_by,omitempty"`
+	Store     [][2]string  `json:"store,omitempty"`
+	B         int          `json:"batch_size"`
+	Names     []string     `json:"field_names"`
+	Types     []string     `json:"field_types"`
+	Orders    []c07Ord     `json:"order_by"`
+	HasAggr   bool         `json:"has_aggregate,omitempty"`
 	Child     [][][]string `json:"child_batches"`
-	ObsRow    [][]string `json:"observed_row_mode,omitempty"`
-	ObsBatch  [][]string `json:"observed_batch_mode,omitempty"`
-	Verdict   string     `json:"go_verdict,omitempty"`
-	PanicRow  string     `json:"panic_row,omitempty"`
-	PanicBat  string     `json:"panic_batch,omitempty"`
-	ErrText   string     `json:"error,omitempty"`
-	Columns   string     `json:"sort_column_kinds"`
+	ObsRow    [][]string   `json:"observed_row_mode,omitempty"`
+	ObsBatch  [][]string   `json:"observed_batch_mode,omitempty"`
+	Verdict   string       `json:"go_verdict,omitempty"`
+	PanicRow  string       `json:"panic_row,omitempty"`
+	PanicBat  string       `json:"panic_batch,omitempty"`
+	ErrText   string       `json:"error,omitempty"`
+	Columns   string       `json:"sort_column_kinds"`
 }
 
 type c07Case struct {
@@ -831,7 +831,9 @@ func c07PartA(c *runCtx, e *emitter, r *rng) {
 		{kvql.TSTR, func() kvql.Column { return []byte(pick(r, []string{"", "a", "a", "ab", "b", "ba", "\x00", "\xff"})) }},
 		{kvql.TSTR, func() kvql.Column { return pick(r, []string{"x", "x", "xy", "y"}) }},
 		{kvql.TNUMBER, func() kvql.Column { return int64(r.intn(5) - 2) }},
-		{kvql.TNUMBER, func() kvql.Column { return pick(r, []float64{-1.5, -1.5, 0, math.Copysign(0, -1), 0.25, 3, 1e300, math.Inf(-1), 5e-324, 2.2250738585072014e-308, -1e-310}) }},
+		{kvql.TNUMBER, func() kvql.Column {
+			return pick(r, []float64{-1.5, -1.5, 0, math.Copysign(0, -1), 0.25, 3, 1e300, math.Inf(-1), 5e-324, 2.2250738585072014e-308, -1e-310})
+		}},
 		{kvql.TBOOL, func() kvql.Column { return r.chance(1, 2) }},
 		// mixed int / float (D16): small integers, exactly representable
 		{kvql.TNUMBER, func() kvql.Column {
